@@ -158,6 +158,35 @@ def _expect_error(case):
     return None
 
 
+def _tl(w, o):
+    def num(o):
+        b = w[o]
+        if b < 253:
+            return b, o + 1
+        n = {253: 2, 254: 4, 255: 8}[b]
+        return int.from_bytes(w[o + 1:o + 1 + n], 'big'), o + 1 + n
+    t, o = num(o)
+    ln, o = num(o)
+    return t, ln, o
+
+
+def _params_digest(wire):
+    """hex SHA-256 of ApplicationParameters .. end of the Interest value, read from the wire alone (None: no such element)"""
+    import hashlib
+    try:
+        _, ln, o = _tl(wire, 0)
+        end = o + ln
+        while o < end:
+            start = o
+            t, l2, o = _tl(wire, o)
+            if t == 0x24:
+                return hashlib.sha256(wire[start:end]).hexdigest()
+            o += l2
+    except (IndexError, KeyError):
+        pass
+    return None
+
+
 def oracle(case, impl):
     m = impl['made']
     exp_err = _expect_error(case)
@@ -208,6 +237,14 @@ def oracle(case, impl):
                     return 'parsed name is not the given name plus one ParametersSha256Digest component'
         elif got != name:
             return 'parsed name differs from the name given'
+        if need:
+            # "the parameters-digest component": by the packet format it is the SHA-256 of the bytes from the
+            # ApplicationParameters element to the end of the Interest, as they are on the wire
+            dg = [c for c in got if c.startswith('0220') and len(c) == 68]
+            want = _params_digest(bytes.fromhex(m['made'][1]))
+            if want is not None and (len(dg) != 1 or dg[0][4:] != want):
+                return ('the ParametersSha256Digest component of the parsed name is not the SHA-256 of the wire bytes '
+                        'from ApplicationParameters to the end of the Interest')
         exp_app = None if case['app'] is None else PK.payload(case, case['app']).hex()
         if signed and exp_app is None:
             exp_app = ''
